@@ -274,6 +274,62 @@ func extractC15() *lean {
 		}
 	}
 	l.def("minTLSVersion", "String", fmt.Sprintf("%q", minVer), minVer)
+
+	// connection_manager.go: calls of s.authenticate and whether each is directly followed by `if err != nil { … return … }`;
+	// the error exit of authenticate returns the zero peer; extractCertificate takes PeerCertificates[<index>]
+	_, cmf := parseFile("network/transport/grpc/connection_manager.go")
+	calls, checked := 0, 0
+	ast.Inspect(cmf, func(n ast.Node) bool {
+		blk, ok := n.(*ast.BlockStmt)
+		if !ok {
+			return true
+		}
+		for i, st := range blk.List {
+			as, ok := st.(*ast.AssignStmt)
+			if !ok || len(as.Rhs) != 1 {
+				continue
+			}
+			call, ok := as.Rhs[0].(*ast.CallExpr)
+			if !ok || exprString(call.Fun) != "s.authenticate" {
+				continue
+			}
+			calls++
+			if i+1 < len(blk.List) {
+				if is, ok := blk.List[i+1].(*ast.IfStmt); ok && c15Src(is.Cond) == "err != nil" && len(is.Body.List) > 0 {
+					if _, ok := is.Body.List[len(is.Body.List)-1].(*ast.ReturnStmt); ok {
+						checked++
+					}
+				}
+			}
+		}
+		return true
+	})
+	l.def("cmAuthenticateCalls", "Nat", fmt.Sprint(calls), calls)
+	l.def("cmAuthenticateCallsChecked", "Nat", fmt.Sprint(checked), checked)
+	zeroPeer := false
+	if fd := funcDecl(cmf, "authenticate"); fd != nil {
+		ast.Inspect(fd, func(n ast.Node) bool {
+			if is, ok := n.(*ast.IfStmt); ok && c15Src(is.Cond) == "err != nil" {
+				if rs, ok := is.Body.List[len(is.Body.List)-1].(*ast.ReturnStmt); ok && len(rs.Results) == 2 && c15Src(rs.Results[0]) == "transport.Peer{}" {
+					zeroPeer = true
+				}
+			}
+			return true
+		})
+	}
+	l.def("cmAuthenticateErrorReturnsZeroPeer", "Bool", c15Bool(zeroPeer), zeroPeer)
+	certIdx := "MISSING"
+	if fd := funcDecl(cmf, "extractCertificate"); fd != nil {
+		ast.Inspect(fd, func(n ast.Node) bool {
+			if rs, ok := n.(*ast.ReturnStmt); ok && len(rs.Results) == 1 {
+				if ix, ok := rs.Results[0].(*ast.IndexExpr); ok {
+					certIdx = c15Src(ix.Index)
+				}
+			}
+			return true
+		})
+	}
+	l.def("extractCertificateIndex", "String", fmt.Sprintf("%q", certIdx), certIdx)
 	l.def("authenticateSetsFlag", "Bool", c15Bool(setsAuth), setsAuth)
 	return l
 }
